@@ -67,6 +67,8 @@ def src(content):
             out.append("{{ %s }}" % s)
         elif kind == 2:
             out.append("{%% include '%s' %%}" % s)
+        elif kind == 4:
+            out.append("{%% include '%s' ignore missing %%}" % s)
         else:
             out.append("{%% import '%s' as m%d %%}{{ m%d.v }}" % (s, n, n))
     out.append("{%% set v = '%s' %%}" % export)
@@ -76,9 +78,16 @@ def src(content):
 MAIN_INCLUDES = ["inc.txt", "../inc.txt", "sub/inc.txt", "./inc.txt", "../sub/./inc.txt", "nosuch.txt"]
 
 
-def main_content(k):
-    inc = MAIN_INCLUDES[k % len(MAIN_INCLUDES)]
-    return ([(0, "M%d[" % k), (1, "a"), (0, "]"), (2, inc), (0, "|"), (3, "lib.txt"), (0, ".")], "XM%d" % k)
+def main_content(k, variant=None):
+    """variant = (include name, 2 include | 4 include ignore missing, import name)"""
+    inc, kind, imp = variant if variant else (MAIN_INCLUDES[k % len(MAIN_INCLUDES)], 2, "lib.txt")
+    return ([(0, "M%d[" % k), (1, "a"), (0, "]"), (kind, inc), (0, "|"), (3, imp), (0, ".")], "XM%d" % k)
+
+
+# include / import names with "." and ".." at the start, in the MIDDLE and at several places
+DOTTED_NAMES = ["inc.txt", "sub/../inc.txt", "x/../inc.txt", "./sub/../inc.txt", "sub/./inc.txt", "../sub/../inc.txt",
+                "sub/../sub/inc.txt", "a/b/../../inc.txt", "../inc.txt", "./inc.txt", "sub/../../inc.txt", "nosuch/../nosuch.txt"]
+DOTTED_IMPORTS = ["lib.txt", "x/../lib.txt", "./lib.txt", "sub/../lib.txt"]
 
 
 def inc_content(tag, k):
@@ -147,7 +156,7 @@ def interpret(c, engine):
             cur[hook[0]] = hook[1]
 
     for p, ct in SETUP:
-        edit(p, ct)
+        edit(p, main_content(0, c["main_variant"]) if (p == "sub/main.txt" and c.get("main_variant")) else ct)
     ed = itertools.count(1)
     for h in c["history"]:
         k = next(ed)
@@ -288,6 +297,56 @@ def run_helper(c):
     return (res, len(helper._cache))
 
 
+GETITEM_KEYS = ["os.getcwd", "os.path.join", "os.environ.get", "os.sys.modules", "os.path.sep.join", "string.Template.delimiter",
+                "datetime.datetime.now", "collections.abc.Mapping", "json.decoder.JSONDecoder", "json.decoder.nosuch", "os.nosuch",
+                "nosuchmodule.x", "nosuch.sub.x", "os", "", "os.", ".os", "os..getcwd", "string.capwords", "string.Formatter.format",
+                "os.path", "posixpath.join", "importlib.import_module", ".os.x", "..x", "os.path."]
+GETITEM_ALLOW = [["os.*"], ["*"], ["os"], ["os", "os.*"], ["string.*"], ["string"], ["datetime.*"], ["os.path"], ["json.*", "collections.*"],
+                 [".*"], ["os.environ"], ["os.environ.*"], ["string.Template"], ["importlib"], ["o.*"]]
+
+
+def run_getitem(c):
+    eng = J.get_instance({"provide_python_modules": list(c["allow"])})
+    T = tmp()
+    p = os.path.join(T, "getitem.txt")
+    out = []
+    for k in c["keys"]:
+        write_file(p, "{%% set v = python['%s'] %%}{{ 'defined' if v is defined else 'undefined' }}" % k)
+        try:
+            r = eng.render(p, {})
+            out.append(1 if r == "defined" else 3 if r == "undefined" else 5)
+        except RuntimeError:
+            out.append(0)
+        except ModuleNotFoundError:
+            out.append(2)
+        except ValueError:
+            out.append(4)
+        except Exception:          # noqa
+            out.append(5)
+    return {"getitem": out}
+
+
+def python_oracles(keys):
+    """what the Python installation has: which dotted names are importable modules, which attributes they have
+    (asked from importlib directly, not through vinegar)"""
+    import importlib
+    mods, attrs = [], []
+    for k in keys:
+        if "." not in k:
+            continue
+        m, a = k.rsplit(".", 1)
+        try:
+            mod = importlib.import_module(m) if m else None
+        except Exception:          # noqa
+            mod = None
+        if mod is not None:
+            if m not in mods:
+                mods.append(m)
+            if hasattr(mod, a):
+                attrs.append((m, a))
+    return mods, attrs
+
+
 ENTRIES = ["os", "osx", "os.path", "o", "os.", "os.*", "*", ".*", "o.*", "os.path.*", ""]
 MODULES = ENTRIES + ["os.pathx", "os.path.sub", "x", "os..", "osx.y", "o.s", "os.*.x"]
 REAL_MODULES = ["os", "os.path", "posixpath", "json", "json.decoder", "o" + "s"]
@@ -326,7 +385,7 @@ class C17(Check):
             for L in range(1, maxlen + 1):
                 hists = [h + (r,) for h in itertools.product(ALPHA, repeat=L - 1) for r in ("R", "Rr")]
                 if L >= 4:
-                    k = 260 if tier == "quick" else (1500 if L == 4 else 2500)
+                    k = 200 if tier == "quick" else (1500 if L == 4 else 2500)
                     hists = rng.sample(hists, min(k, len(hists)))
                 for h in hists:
                     n += 1
@@ -355,6 +414,20 @@ class C17(Check):
             yield {"kind": 0, "root": True, "cache": False, "rel": True, "base": [], "relname": False, "history": h}
             yield {"kind": 0, "root": True, "cache": True, "rel": True, "base": [], "relname": False,
                    "history": ["R", "E" + h[1][1], "R"] if h[1][1] in "mjk" else h}
+        # include / import names with "." and ".." components, every loader configuration, include / ignore missing
+        for root, cache, rel in self.configs():
+            for inc in DOTTED_NAMES:
+                for kind in (2, 4):
+                    n += 1
+                    yield {"kind": 0, "root": root, "cache": cache, "rel": rel, "base": [], "relname": (n % 3 == 0),
+                           "history": ["R", "R"] if n % 4 else ["R", "Ei", "Ej", "R"],
+                           "main_variant": (inc, kind, DOTTED_IMPORTS[n % len(DOTTED_IMPORTS)])}
+            for imp in DOTTED_IMPORTS:
+                yield {"kind": 0, "root": root, "cache": cache, "rel": rel, "base": [], "relname": False,
+                       "history": ["R", "Ek", "El", "R"], "main_variant": ("inc.txt", 2, imp)}
+        # what python[key] yields or raises through a template
+        for allow in GETITEM_ALLOW:
+            yield {"kind": 2, "allow": allow, "keys": GETITEM_KEYS}
         # allow-lists
         qs = MODULES + list(reversed(MODULES))
         for a in ENTRIES:
@@ -380,6 +453,8 @@ class C17(Check):
     def impl(self, c):
         if c["kind"] == 0:
             return run_engine(c)
+        if c["kind"] == 2:
+            return run_getitem(c)
         return run_helper(c)
 
     # -- D18 (known finding): root_dir + cache_enabled = jinja2.FileSystemLoader with its mtime-only test
@@ -414,10 +489,16 @@ class C17(Check):
             cfg = [[ROOT.encode()] if c["root"] else [], bool(c["cache"]), bool(c["rel"]), ROOT.encode(), False,
                    [[k.encode(), v.encode()] for k, v in c["base"]]]
             return sx([0, cfg, steps, self.canon(obs)])
+        if c["kind"] == 2:
+            mods, attrs = python_oracles(c["keys"])
+            return sx([2, [a.encode() for a in c["allow"]], [m.encode() for m in mods],
+                       [[m.encode(), a.encode()] for m, a in attrs], [k.encode() for k in c["keys"]], self.canon(obs)])
         return sx([1, 1, c["limit"], [a.encode() for a in c["allow"]], [q.encode() for q in c["queries"]],
                    self.canon(obs)])
 
     def canon(self, obs):
+        if isinstance(obs, dict) and "getitem" in obs:
+            return [2, list(obs["getitem"])]
         if isinstance(obs, tuple):
             return [1, [int(b) for b in obs[0]], obs[1]]
         return [0, [list(r) for r in obs["results"]]]
@@ -428,16 +509,21 @@ class C17(Check):
             if any(x[0] in "ED" for x in h[:-1]):
                 return (c["root"], c["cache"], c["rel"], bool(c["base"]), c["relname"], tuple(h))
             return None
+        if c["kind"] == 2:
+            return ("getitem", tuple(c["allow"]), tuple(c["keys"]))
         return ("allow", tuple(c["allow"]), c.get("as_str", False), c.get("via_template", False), len(c["queries"]))
 
     def show(self, c):
         if c["kind"] == 0:
             return {"root_dir": c["root"], "cache_enabled": c["cache"], "relative_includes": c["rel"],
                     "config_context": c["base"], "relative_template_name": c["relname"], "history": c["history"],
+                    "sub/main.txt(include name, 2=include 4=ignore missing, import name)": c.get("main_variant"),
                     "legend": "setup writes 8 files; Em/Ei/Ej/El/Ek edit sub/main, inc, sub/inc, lib, sub/lib; Di/Dj delete "
                               "inc, sub/inc; R renders sub/main.txt, Rr renders main.txt",
                     "adversarial_ops": "Lm/Lj/Li render sub/main.txt while an edit of sub/main, sub/inc, inc happens during the load of "
                                        "that file; Sm/Sj/Si/Sk/Sl same-size in-place rewrite with mtime restored; Nm/Nj same via new inode"}
+        if c["kind"] == 2:
+            return {"provide_python_modules": c["allow"], "template": "{% set v = python[KEY] %}...", "keys": c["keys"]}
         return {"allow": c["allow"], "queries": c["queries"][:60], "n_queries": len(c["queries"]),
                 "as_str": c.get("as_str", False), "via_template": c.get("via_template", False)}
 
@@ -450,6 +536,13 @@ class C17(Check):
                 yield dict(c, base=[])
             if c["relname"]:
                 yield dict(c, relname=False)
+        elif c["kind"] == 2:
+            ks = c["keys"]
+            if len(ks) > 1:
+                yield dict(c, keys=ks[:len(ks) // 2])
+                yield dict(c, keys=ks[len(ks) // 2:])
+                for i in range(len(ks)):
+                    yield dict(c, keys=ks[:i] + ks[i + 1:])
         else:
             q = c["queries"]
             if len(q) > 1:
